@@ -129,10 +129,21 @@ func (q *querier) resolvePatchQuery(ctx context.Context, buildList []module.Vers
 		return module.Version{}, err
 	}
 
+	// As for the latest version, releases are preferred: a pre-release is only chosen when the
+	// current version is itself a pre-release. (A project that is not in the build list yet is
+	// resolved to its latest release above; asking again must not move it to a pre-release.)
+	var prerelease *vcs.Version
 	for _, v := range slices.Backward(versions) {
 		if v.Version.Path == currentVersion.Path && semver.MajorMinor(v.Version.Version) == currentMajorMinor && semver.Compare(v.Version.Version, currentVersion.Version) > 0 {
-			return v.Version, nil
+			if semver.Prerelease(v.Version.Version) == "" {
+				return v.Version, nil
+			} else if prerelease == nil {
+				prerelease = v
+			}
 		}
+	}
+	if prerelease != nil && semver.Prerelease(currentVersion.Version) != "" {
+		return prerelease.Version, nil
 	}
 	return currentVersion, nil
 }
